@@ -8,6 +8,7 @@ from vlib import cgen, ref
 from vlib.harness import SubCheck, must, must_raise, require
 
 PROPERTY_ID = "C06"
+TECHNIQUE = 'differential/metamorphic property-based testing (Hypothesis): bind-then-evaluate vs evaluate-then-substitute (simultaneous) on generated symbolic circuits'
 RULE = (
     "Hypothesis-generated circuits (n<=3, <=4 ops) whose gate parameters are numbers, symbols and "
     "expressions over a pool of 5 symbols; built-ins, symbolic custom gates whose actual parameters "
